@@ -15,7 +15,7 @@ PROP = 'C19'
 MANIFEST = dict(
     technique='TLA+ model (FsSem) of backend-independent filesystem semantics and of chains built by add_sys, checked by TLC; every file set of the model materialised on the four real backends and every add_sys transition replayed on a real FileSystemChain; all records validated by TLC (FsSemTrace)',
     category='model_checking',
-    text='FsSem defines existence, look-up and folder walk on file sets keyed by case-folded components (either slash), chain look-up by first member, member-relative de-duplicated walk, and add_sys(priority). TLC checks on all chains of up to 2 (thorough: 3-4) members over file sets of {a/x, a/X, ab/x, a/b/x, x, A/x} x prefixes {"", a, a/b}: walking "" lists everything, every walked name looks up to the listed file, first-member-wins, independence of members lacking the name, priority insertion, and that FileSystemChain\'s way of combining member lists implements the specified walk. Every file set of up to 3 names is built on VirtualFileSystem, ZipFileSystem (in memory), VPKFileSystem (VPK written by the harness\'s own encoder) and RawFileSystem (exact-case spellings only) and queried with all case x separator spellings and folders; every model transition is replayed on a real chain of mixed backends, the prefix of each member given in one of several spellings of the same component sequence (plain, trailing slash, leading dot-slash, doubled separator, backslash; free-form mixes in the random tier), with spies on the members, so that TLC judges each member\'s answers separately from the chain\'s end-to-end result (how and how often the chain consults its members is not compared). The model speaks of symbols (a/A, ab/AB, b/B, x/X equivalent pairs); single-backend family and transitions are replayed under three concretisations, plain ASCII and two whose case folding is not lower-casing (straße/STRASSE, ligature fi, capital final sigma, long s; folder and file names; VPK is ASCII-only by format), and TLC checks every concretisation admissible (injective, symbols equivalent iff texts case-fold equivalent). Seeded random larger file sets, such names in folders and prefixes, deeper prefixes and chains of up to 5 members extend the family.',
+    text='FsSem defines existence, look-up and folder walk on file sets keyed by case-folded components (either slash), chain look-up by first member, member-relative de-duplicated walk, and add_sys(priority). TLC checks on all chains of up to 2 (thorough: 3-4) members over file sets of {a/x, a/X, ab/x, a/b/x, x, A/x} x prefixes {"", a, a/b}: walking "" lists everything, every walked name looks up to the listed file, first-member-wins, independence of members lacking the name, priority insertion, and that FileSystemChain\'s way of combining member lists implements the specified walk. Every file set of up to 3 names is built on VirtualFileSystem, ZipFileSystem (in memory), VPKFileSystem (VPK written by the harness\'s own encoder) and RawFileSystem (exact-case spellings only) and queried with all case x separator spellings and folders; file contents are KV1 text carrying a content id, and which file was obtained is observed through every public way of reading (open_bin, open_str, read_kv1, read_prop by name and by File handle, File.open_*, cache_key must not fail) for names and for handles from look-up, walk, repeating walk and iteration - the driver enumerates the public methods reflectively and fails as machinery when one has no probe; every model transition is replayed on a real chain of mixed backends, the prefix of each member given in one of several spellings of the same component sequence (plain, trailing slash, leading dot-slash, doubled separator, backslash; free-form mixes in the random tier), with spies on the members, so that TLC judges each member\'s answers separately from the chain\'s end-to-end result (how and how often the chain consults its members is not compared). The model speaks of symbols (a/A, ab/AB, b/B, x/X equivalent pairs); single-backend family and transitions are replayed under three concretisations, plain ASCII and two whose case folding is not lower-casing (straße/STRASSE, ligature fi, capital final sigma, long s; folder and file names; VPK is ASCII-only by format), and TLC checks every concretisation admissible (injective, symbols equivalent iff texts case-fold equivalent). Seeded random larger file sets, such names in folders and prefixes, deeper prefixes and chains of up to 5 members extend the family.',
     design_ref='4 (C19)',
     note='The directory backend is bound for exact-case spellings on a case-sensitive filesystem (POSIX). VPK fixtures come from an encoder written from the format description, not from srctools.vpk. Trusts TLC and str.casefold as the fold table.',
 )
